@@ -464,7 +464,18 @@ impl ConfigActor {
 
     fn inner_set_config(&mut self, key: ConfigKey, value: ConfigValue) {
         self.tenant_index.insert_config(key.clone());
-        self.cache.insert(key, value);
+        let changed = match self.cache.get(&key) {
+            // a tmp value was stored without a notification (see set_tmp_config)
+            Some(old) => old.tmp || old.md5 != value.md5,
+            None => true,
+        };
+        self.cache.insert(key.clone(), value);
+        if changed {
+            // an imported value or a record of an installed snapshot is a change like any other
+            // for the clients that hold the previous md5
+            self.listener.notify(key.clone());
+            self.subscriber.notify(key);
+        }
     }
 
     fn set_config(&mut self, param: SetConfigParam) -> anyhow::Result<ConfigResult> {
